@@ -367,3 +367,11 @@ def r02_6(ctx):
 
     small_literal_typing(ctx)
     r09_2(ctx)
+
+
+@rule("R02.7", "C02", "the conversions an operator applies to its operands change the representation, not the value: widening fills with the SOURCE's sign, a truth value becomes 0 / 1", min_instances=8)
+def r02_7(ctx):
+    from .c03 import r03_1, r03_2
+
+    r03_1(ctx)
+    r03_2(ctx)
